@@ -1,4 +1,6 @@
-"""C12 — ordering contract. Direct calls of SortOrderedComponents + invocation order in real starts."""
+"""C12 — ordering contract. Direct calls of SortOrderedComponents + invocation order in real starts, and the read order
+of the loaders at EVERY Initialize of one Configure that is driven through several steps (SetLoaders / AddLoaders /
+Initialize, loaders added between two Initializes, the last Initialize optionally inside App.Run)."""
 import vlib
 
 MANIFEST = {
@@ -6,7 +8,8 @@ MANIFEST = {
     "text": "Rocq theorems over Model/Sorter.v for all participant lists (permutation, three blocks, Order non-decreasing, "
             "canonical projection); the model is tied to the code on every run by evaluating it (vm_compute) against the real "
             "SortOrderedComponents on generated multisets and against invocation logs of processors, runners and loaders "
-            "in real App.Run starts",
+            "in real App.Run starts and of the loaders at every Initialize of a multi-step history on one Configure "
+            "(c12_resort: sorting a stored result together with later registrations = sorting everything)",
     "design_ref": "DESIGN.md 5 C12",
     "note": "trusted: Coq kernel + vm_compute; hand-written model of SortOrderedComponents; Go harness and generators; "
             "sort.Slice assumed only to permute (the oracle re-checks sortedness on each output)",
@@ -51,6 +54,56 @@ def gen_cases(ctx, n_direct, n_run, start_id=0):
     return cases
 
 
+def gen_hist(rng, cid):
+    """one Configure: phases of set/add steps each closed by an Initialize; every loader of the case is used once"""
+    n = rng.randint(2, 10)
+    parts = gen_parts(rng, n, "tight")
+    ids = [p["id"] for p in parts]
+    rng.shuffle(ids)
+    nph = rng.choice([2, 2, 2, 3, 3, 4])
+    cuts = sorted(rng.randint(0, n) for _ in range(nph - 1))
+    groups = [ids[a:b] for a, b in zip([0] + cuts, cuts + [n])]
+    steps = []
+    for ph, g in enumerate(groups):
+        i = 0
+        while i < len(g):
+            k = rng.choice([1, 1, 2, 3])
+            first = ph == 0 and i == 0
+            op = "set" if rng.random() < (0.5 if first else 0.06) else "add"
+            steps.append({"op": op, "ids": g[i:i + k]})
+            i += k
+        steps.append({"op": "init", "ids": []})
+        if rng.random() < 0.07:
+            steps.append({"op": "init", "ids": []})
+    return {"id": cid, "kind": "loaderhist", "parts": parts, "steps": steps,
+            "start": rng.choice(["new", "new", "default"]), "via": rng.choice(["direct", "direct", "app"])}
+
+
+def hist_classes(c):
+    """statistics: Initializes; loaders added after an Initialize by class; an ordered one added after an Initialize
+    that had consulted a loader which must come after it"""
+    cls = {p["id"]: p for p in c["parts"]}
+    rank = {"P": 0, "O": 1, "U": 2}
+    key = lambda i: (rank[cls[i]["cls"]], cls[i]["ord"] if cls[i]["cls"] != "U" else 0)
+    cur, inits, added, must_move = [], 0, {"P": 0, "O": 0, "U": 0}, False
+    consulted = []
+    for st in c["steps"]:
+        if st["op"] == "init":
+            inits += 1
+            consulted = list(cur)
+        else:
+            if st["op"] == "set":
+                cur = []
+                consulted = [] if inits else consulted
+            for i in st["ids"]:
+                if inits:
+                    added[cls[i]["cls"]] += 1
+                    if any(key(i) < key(j) for j in consulted if j in cur):
+                        must_move = True
+                cur.append(i)
+    return inits, added, must_move
+
+
 CORPUS = [
     {"kind": "direct", "parts": [{"id": 0, "cls": "U", "ord": 0}, {"id": 1, "cls": "P", "ord": 1},
                                  {"id": 2, "cls": "O", "ord": 99}, {"id": 3, "cls": "P", "ord": 98},
@@ -88,15 +141,16 @@ def evaluate(ctx, binp, cases, tag):
     k = 0
     for c, o in zip(cases, res["outs"]):
         o["facts"] = o["facts"] or []
-        for name, seq in zip(o["seqname"] or [], o["seqs"] or []):
+        for si, (name, seq) in enumerate(zip(o["seqname"] or [], o["seqs"] or [])):
             seq = seq or []
             k += 1
-            by_id[k] = {"case": c, "facts": o["facts"], "observed": name, "seq": seq, "err": o["err"],
+            facts = (o["seqfacts"][si] or []) if o.get("seqfacts") else o["facts"]
+            by_id[k] = {"case": c, "facts": facts, "observed": name, "seq": seq, "err": o["err"],
                         "panic": o["panic"]}
             if o["panic"] or o["err"]:
                 # a start that fails/panics is an observation outside the model: report as mismatch+violation
                 seq = [-1]
-            terms.append("mkCase %d %s %s" % (k, vlib.coq_list(part_term(p) for p in o["facts"]),
+            terms.append("mkCase %d %s %s" % (k, vlib.coq_list(part_term(p) for p in facts),
                                               vlib.coq_list(str(10 ** 6 if x < 0 else x) for x in seq) + "%nat"))
     out = vlib.coq_eval_sharded(ctx, "cases_c12_" + tag, HEADER, terms,
                                 {"M": "mismatches", "V": "violations", "NT": "count_nontrivial"})
@@ -106,7 +160,7 @@ def evaluate(ctx, binp, cases, tag):
 def run(ctx):
     static_ok = vlib.static_obligations(ctx)
     binp = vlib.go_build(ctx, "./cmd/c12")
-    nd, nr = (3000, 150) if ctx.quick() else (60000, 2000)
+    nd, nr, nh = (3000, 150, 600) if ctx.quick() else (60000, 2000, 12000)
     cases = [dict(c, id=i) for i, c in enumerate(CORPUS)]
     if ctx.replay:
         import json
@@ -114,9 +168,25 @@ def run(ctx):
         cases = [dict(r["case"]["case"], id=0)] if "case" in r and "case" in r["case"] else cases
     else:
         cases += gen_cases(ctx, nd, nr, start_id=len(cases))
+        cases += [gen_hist(ctx.rng, len(cases) + i) for i in range(nh)]
     by_id, M, V, nt, nev = evaluate(ctx, binp, cases, "main")
     ctx.log("cases=%d evaluations=%d nontrivial=%d mismatches=%d violations=%d" % (len(cases), nev, nt, len(M), len(V)))
-    distinct = len({vlib.stable_hash([c["kind"], [(p["cls"], p["ord"]) for p in c["parts"]]]) for c in cases})
+    distinct = len({vlib.stable_hash([c["kind"], [(p["cls"], p["ord"]) for p in c["parts"]], c.get("steps"), c.get("via")])
+                    for c in cases})
+    hs = {"histories": 0, "initializes": 0, "with_two_or_more_Initializes": 0, "last_Initialize_inside_App.Run": 0,
+          "loaders_added_after_an_Initialize": {"P": 0, "O": 0, "U": 0},
+          "a_loader_added_after_an_Initialize_must_be_sorted_before_one_already_consulted": 0}
+    for c in cases:
+        if c["kind"] != "loaderhist":
+            continue
+        inits, added, must = hist_classes(c)
+        hs["histories"] += 1
+        hs["initializes"] += inits
+        hs["with_two_or_more_Initializes"] += 1 if inits >= 2 else 0
+        hs["last_Initialize_inside_App.Run"] += 1 if c["via"] == "app" else 0
+        for k in "POU":
+            hs["loaders_added_after_an_Initialize"][k] += added[k]
+        hs["a_loader_added_after_an_Initialize_must_be_sorted_before_one_already_consulted"] += 1 if must else 0
     kinds = {}
     sizes = {}
     for c in cases:
@@ -130,7 +200,16 @@ def run(ctx):
         cur = c
         for _round in range(15):
             parts = cur["case"]["parts"]
-            cands = [dict(cur["case"], id=i, parts=parts[:i] + parts[i + 1:]) for i in range(len(parts))]
+            cands = [dict(cur["case"], parts=parts[:i] + parts[i + 1:]) for i in range(len(parts))]
+            if cur["case"]["kind"] == "loaderhist":
+                steps = cur["case"]["steps"]
+                for d, p in zip(cands, parts):
+                    d["steps"] = [dict(st, ids=[x for x in st["ids"] if x != p["id"]]) for st in steps]
+                cands += [dict(cur["case"], steps=steps[:i] + steps[i + 1:]) for i in range(len(steps))
+                          if not steps[i]["ids"]]
+                cands += [dict(cur["case"], via="direct")] if cur["case"]["via"] == "app" else []
+                cands += [dict(cur["case"], start="new")] if cur["case"]["start"] != "new" else []
+            cands = [dict(d, id=i) for i, d in enumerate(cands)]
             if not cands:
                 return cur
             b2, _, V2, _, _ = evaluate(ctx, binp, cands, "shrink")
@@ -142,6 +221,7 @@ def run(ctx):
     def widen():
         ctx.rng.seed(ctx.seed + 99)
         more = gen_cases(ctx, 20000, 600)
+        more += [gen_hist(ctx.rng, len(more) + i) for i in range(3000)]
         b2, _, V2, _, _ = evaluate(ctx, binp, more, "widen")
         return [b2[i] for i in V2[:3]]
 
@@ -151,11 +231,13 @@ def run(ctx):
         "distinct_nontrivial": min(nt, distinct),
         "rule": "generated participant lists (classes P/O/U, Order pools with ties, negatives, int64 extremes; sizes 0-120) "
                 "sorted by the real SortOrderedComponents, plus invocation logs of processors/runners/loaders in real "
-                "App.Run starts; non-trivial = at least two classes present and at least one (class,Order) tie; "
-                "distinct = distinct (kind, class/order list)",
+                "App.Run starts, plus the read order at every Initialize of multi-step histories on one Configure (set/add "
+                "steps between Initializes; each Initialize is one evaluation against the loaders configured at that "
+                "moment); non-trivial = at least two classes present and at least one (class,Order) tie; "
+                "distinct = distinct (kind, class/order list, steps)",
         "samples": samples,
         "traces_validated_against_impl": sum(1 for c in cases if c["kind"] != "direct"),
-        "input_distribution": {"kinds": kinds, "size_buckets": sizes},
+        "input_distribution": {"kinds": kinds, "size_buckets": sizes, "loader_histories_on_one_Configure": hs},
         "nontrivial_cases": nt,
         "distinct_cases": distinct,
     }
